@@ -7,8 +7,10 @@
 (* S (code shaped): the cache  m_lastCheckTime / m_isTrue  of SimpleCondition against             *)
 (*   Message::m_lastChangeTime with a clock of one-second resolution, CombinedCondition as        *)
 (*   short-circuit conjunction, DataFieldSet/SingleDataField::hasField for resolution.            *)
-(* MC_Condition.cfg explores S and checks S => P (invariant SImpliesP).  On the pinned design     *)
-(* (GE = FALSE) TLC refutes it with  Store(a) Query Store(b) Query  inside one second.            *)
+(* MC_Condition.cfg explores S of the repaired code (GE = TRUE: re-evaluate when data was seen and *)
+(* lastChange >= lastCheck) and checks S => P (invariant SImpliesP).  MC_Condition_pinned.cfg      *)
+(* (GE = FALSE, the comparison lastChange > lastCheck before the repair) is kept for the design-   *)
+(* level comparison: TLC refutes it with  Store(a) Query Store(b) Query  inside one second.        *)
 EXTENDS ConditionP
 
 -----------------------------------------------------------------------------
@@ -16,7 +18,7 @@ EXTENDS ConditionP
 (* one referenced message with one numeric field, three simple conditions and the combined one    *)
 CONSTANTS Vals,     \* values that can be stored, e.g. 0..3
           MaxNow,   \* bound of the clock (state constraint)
-          GE        \* FALSE: pinned comparison  lastChange > lastCheck ; TRUE: repaired variant
+          GE        \* TRUE: repaired comparison (default) ; FALSE: lastChange > lastCheck as before the repair
 
 None == -1
 SConds == <<[r |-> 1, k |-> "num",  fn |-> 0, items |-> <<[op |-> "eq", a |-> 1, b |-> 1], [op |-> "eq", a |-> 3, b |-> 3]>>],
